@@ -191,6 +191,37 @@ impl Report {
             });
         }
     }
+    /// an empty report with the same settings, for re-running a case while minimising it
+    pub fn scratch(&self) -> Report {
+        let mut r = Report::new(&self.prop);
+        r.tier = self.tier.clone();
+        r.seed = self.seed;
+        r
+    }
+    /// After `first_new` failures were recorded for world `w`, minimise `w` with respect to the
+    /// first new failure (same kind and signature must still be reported) and append the reduced
+    /// world, rendered readably, to that failure's detail.
+    pub fn minimise_last(&mut self, first_new: usize, w: &gen::GWorld, rerun: &mut dyn FnMut(&mut Report, &gen::GWorld)) {
+        if self.failures.len() <= first_new || std::env::var("VERIF_NO_SHRINK").is_ok() {
+            return;
+        }
+        // prefer an oracle failure (the property itself) over a mere disagreement with the model
+        let first_new = (first_new..self.failures.len()).find(|i| self.failures[*i].kind == "oracle").unwrap_or(first_new);
+        let (kind, sig) = (self.failures[first_new].kind, self.failures[first_new].signature.clone());
+        let proto = self.scratch();
+        let (small, steps) = gen::minimise(w, 300, &mut |cand| {
+            let mut sr = proto.scratch();
+            rerun(&mut sr, cand);
+            sr.failures.iter().any(|f| f.kind == kind && f.signature == sig)
+        });
+        // the detail of the failure as reported on the reduced world
+        let mut sr = proto.scratch();
+        rerun(&mut sr, &small);
+        let small_detail = sr.failures.iter().find(|f| f.kind == kind && f.signature == sig).map(|f| f.detail.clone()).unwrap_or_default();
+        let f = &mut self.failures[first_new];
+        f.detail.push_str(&format!("\n=== minimised world ({steps} reductions; packages {} -> {})\n{}\n=== on the minimised world: {}", w.graph.pkgs.len(), small.graph.pkgs.len(), gen::describe(&small), small_detail.chars().take(1500).collect::<String>()));
+        f.detail.push_str(&format!("\n=== original world\n{}", gen::describe(w)));
+    }
     /// compare the two canonical answers of one correspondence obligation
     pub fn corr(&mut self, name: &str, imp: &str, model: &str, case: &str) -> bool {
         self.corr_checked += 1;
